@@ -48,6 +48,10 @@ def specific_tagonly(rnd, gen, k):
 def judge_file(rec, rf, txns, rows, tmp, rnd, perms=6):
     case0 = {'kind': 'rules', 'rf': rf.to_json(), 'rows': rows}
     text = R.render(rf)
+    if rnd is not None and rnd.random() < .3:
+        # the same file as its author may have spaced it: an empty line before the tags: (and field:) lines of each block
+        text = text.replace('\ntags: ', '\n\ntags: ').replace('\nfield: ', '\n   \nfield: ')
+        rec.count('files_with_blank_lines_inside_blocks')
     try:
         engines = {m: O.load_engine(text, m) for m in ('first_match', 'most_specific')}
     except Exception as e:
